@@ -139,6 +139,29 @@ def build(case, rng, nbody):
     probes += '<body name="t%d" pos="%s"><freejoint/><geom name="gt%d_0" type="sphere" size="%s"/></body>' % (
         k, gg.fmt(c), k, gg.fmt(r))
 
+  # ---- mid-phase margin probes: two multi-geom bodies (both go through the BVH mid-phase), BOTH with non-zero margin / gap,
+  #      facing each other so that the separation of their BVH boxes equals the sphere gap, which is drawn between
+  #      max(marginA, marginB) and marginA + marginB (where only the documented SUM of the margins keeps the pair alive)
+  for k in range(rng.randint(1, 3)):
+    r = rng.uniform(0.03, 0.06)
+    a = rng.choice([0.01, 0.02, 0.04])
+    b = rng.choice([0.01, 0.03, 0.05])
+    ga_, gb_ = (rng.choice([0.0, 0.01]), rng.choice([0.0, 0.02]))
+    ta_, tb_ = a + ga_, b + gb_
+    gapd = max(ta_, tb_) + rng.uniform(0.15, 0.85) * (ta_ + tb_ - max(ta_, tb_))
+    R = gg.quat2mat(gg.rand_quat(rng)) if rng.rand() < 0.7 else np.eye(3)
+    P = centres[rng.randint(ncl)] + rng.uniform(-0.5, 0.5, 3) + np.array([0, 0, 1.5 + k])
+    P2 = P + R @ np.array([2 * r + gapd, 0, 0])
+    q = gg.fmt(gg.mat2quat(R))
+    for nm, pos, mar, gp in (('u%d' % k, P, a, ga_), ('v%d' % k, P2, b, gb_)):
+      bnames.append(nm)
+      gx = ''
+      for j, yy in enumerate((-0.07, 0.07, 0.21)[:rng.randint(2, 4)]):
+        gnames.append('g%s_%d' % (nm, j))
+        gx += '<geom name="g%s_%d" type="sphere" size="%s" pos="0 %s 0" margin="%s"%s/>' % (
+            nm, j, gg.fmt(r), gg.fmt(yy), gg.fmt(mar), ' gap="%s"' % gg.fmt(gp) if gp else '')
+      probes += '<body name="%s" pos="%s" quat="%s"><freejoint/>%s</body>' % (nm, gg.fmt(pos), q, gx)
+
   world = ''
   for p in range(case['nplane']):
     q = gg.axis_angle(gg.rand_unit(rng), rng.uniform(0, 0.3)) if p else np.eye(3)
@@ -161,7 +184,7 @@ def build(case, rng, nbody):
     def dofless(gn):
       if gn[0] in 'pw':
         return True
-      if gn[1] in 'st':
+      if gn[1] in 'stuv':
         return False
       b = bodies[int(gn[1:].split('_')[0])]
       return b['par'] < 0 and b['kind'] < 0.2
